@@ -192,6 +192,17 @@ def run_unit(u, desc, tier, seed):
                     hkl = [int(model.get(n, 0)) for n in ('h', 'k', 'l')]
                     ok, text = numeric(no, cc, modname, hkl)
                     return ok, {'no': no, 'cc': cc, 'module': modname, 'hkl': hkl}, text
+                if modname == 'tools' and u.paths % 7 == 0:
+                    # translator validation: a solver witness of this path (a concrete hkl) must make the real sysabs, run on plain
+                    # integers, return the value this leaf returned
+                    stw, mw, _ = smt.solve(leaf['pc'] + [region, notzero], timeout_s=5, cvc5_timeout_s=0)
+                    if stw == 'sat' and mw:
+                        hw = [int(mw.get(nm, 0)) for nm in ('h', 'k', 'l')]
+                        realv = mod.sysabs(hw, syscond, s.crystal_system, s.cell_choice)
+                        if not isinstance(r, zprox.ZNum) and int(realv) == int(r):
+                            u.validated += 1
+                        else:
+                            u.add('C05/%s/%s.sysabs/translator' % (tag, modname), 'error', 'real sysabs(%s)=%s but the symbolic path returned %s' % (hw, realv, r))
                 u.prove('C05/%s/%s.sysabs<=>operators' % (tag, modname), leaf['pc'] + [region, notzero], goal, replay=rp,
                         detail='%s %s: (sysabs != 0) <=> extinct by the %d tabulated operators, on a path returning %s' % (tag, modname, len(rows), r if not isinstance(r, zprox.ZNum) else 'symbolic'),
                         timeout=60, cvc5_timeout=0, sample=(no in (14, 167) and modname == 'tools' and u.paths < 3))
